@@ -496,5 +496,62 @@ let run ~tier ~seed ~only acc =
     end;
     incr idx
   done;
+  (* ---- tables from the independent encoder written in Gallina (spec/Encode.v, extracted): the files the
+     theorems T11c_* speak about.  Every legal layout choice is drawn at random: version, foreign prefix,
+     compression, cuts, restart sets, amount of sharing (<= common prefix), separators, index layout ---- *)
+  let from_coq_encoder st ~klass (es : (string * string) list) =
+    let lcp a b = let n = min (String.length a) (String.length b) in let i = ref 0 in while !i < n && a.[!i] = b.[!i] do incr i done; !i in
+    let version = if rint st 3 = 0 then V1 else V2 in
+    let comp = if rint st 3 = 0 then rrange st 1 5 else 0 in
+    let prefix = if rint st 3 = 0 then rbytes st (rrange st 1 300) else "" in
+    let restart_mode = rint st 4 in
+    let choices (keys : string list) : n option list =
+      let prev = ref "" in
+      List.mapi (fun i k ->
+        let c = if i = 0 then None
+          else if (match restart_mode with 0 -> rint st 3 = 0 | 1 -> true | 2 -> false | _ -> i mod (2 + rint st 3) = 0) then None
+          else (let l = lcp !prev k in Some (n_of_int (if rbool st || l = 0 then l else rint st (l + 1)))) in
+        prev := k; c) keys in
+    (* cut the entries into non-empty blocks *)
+    let rec cut l = match l with
+      | [] -> []
+      | _ -> let n = min (List.length l) (rrange st 1 (max 1 (rrange st 1 9))) in
+        let rec take k l acc = if k = 0 then (List.rev acc, l) else (match l with x :: r -> take (k - 1) r (x :: acc) | [] -> (List.rev acc, [])) in
+        let (h, r) = take n l [] in h :: cut r in
+    let blocks = cut es in
+    let nb = List.length blocks in
+    let seps = List.mapi (fun i blk ->
+      let last = fst (List.nth blk (List.length blk - 1)) in
+      if i + 1 < nb then (if rbool st then last else Enc.separator st last (fst (List.hd (List.nth blocks (i + 1)))))
+      else (if rint st 3 = 0 then last ^ "\001" else last)) blocks in
+    let lay = { l_version = version; l_prefix = nl_of_string prefix; l_comp = n_of_int comp; l_block_size = n_of_int (rrange st 1024 65536);
+                l_blocks = List.map2 (fun blk sep -> (choices (List.map fst blk), nl_of_string sep)) blocks seps;
+                l_index = choices seps } in
+    let compress alg raw = (match Wr.c_compress (int_of_n alg) false 0 (string_of_nl raw) with Some z -> Some (nl_of_string z) | None -> None) in
+    let ces = List.map (fun (k, v) -> (nl_of_string k, nl_of_string v)) es in
+    let table_json () = JO [ "source", JS "Gallina encoder spec/Encode.v (extracted)"; "version", JI (match version with V1 -> 1 | V2 -> 2); "comp", JI comp;
+                             "prefix_len", JI (String.length prefix); "blocks", JL (List.map (fun b -> JI (List.length b)) blocks);
+                             "restart_mode", JI restart_mode; "entries", entries_json es ] in
+    if not (layout_ok compress lay ces) then acc.notes <- ("generated_layout_not_legal", table_json ()) :: acc.notes
+    else (match encode_table compress lay ces with
+        | None -> bump acc "encoder_compress_failed"
+        | Some f ->
+          let file = string_of_nl f in
+          bump acc (Printf.sprintf "coq_encoder_blocks=%d" (min nb 6));
+          if prefix <> "" then bump acc "coq_encoder_foreign_prefix";
+          write_file path file;
+          (match with_child_acc acc (fun a -> check_table a st ~props:"[C11]" ~klass ~table_json ~path ~file ~es ~with_dump:false ~tier) with
+           | None -> ()
+           | Some sg -> fail acc ~kind:"spec_violation" ~what:(Printf.sprintf "[C11,C03] the reader stopped (signal %d) on a well-formed table from the Gallina encoder" sg) (table_json ())));
+    (try Sys.remove path with _ -> ()) in
+  let nc = if tier = "thorough" then 500 else 40 in
+  for _ = 1 to nc do
+    if want () then begin
+      let st = case_rng ~seed ~engine ~index:!idx in
+      let es = (if rbool st then rentries_sorted st ~big:false ~maxn:30 else rentries_blocks st ~nkeys:(rrange st 1 40) ~vlen:(rrange st 0 60)) in
+      from_coq_encoder st ~klass:"gallina_encoder" es
+    end;
+    incr idx
+  done;
   if want () then big_block_case acc;
   incr idx
